@@ -128,8 +128,9 @@ if __name__ == "__main__":
     lines = ["# Seeded changes (confirmed in a scratch worktree: demo passes clean, fails with the change, pinned tests unchanged)", "",
              "Each patch.diff is relative to the /repo HEAD at the time it was seeded (first round: d64dc15 / 69132ff, second round `_s`: a1f549d).",
              "On the final /repo HEAD 58 of the 61 still apply with `git -C /repo apply`; C03_m2 and C06_m1 touch code that was repaired later",
-             "(FitFractions.append_int, the cfit normalisation) and conflict; C08_s1 still applies but no longer manifests, because repair d8e81e5",
-             "(set_params skips a mass / width only if it is not floated) removed the mechanism it relied on.", "",
+             "(FitFractions.append_int, the cfit normalisation) and conflict; C08_s1 and C04_m2 still apply but no longer manifest, because the repairs d8e81e5",
+             "(set_params skips a mass / width only if it is not floated) and a1f549d (get_min_l cached per object, not by name) removed the mechanisms they relied on.",
+             "All other seeds were re-run against the final checks and the final /repo (regression sweep of 2026-10-01): every one is reported.", "",
              "| id | property | change | needs | detection |", "|---|---|---|---|---|"]
     for sid, m in sorted(S.items()):
         d = os.path.join(V, "seeded", sid)
